@@ -606,9 +606,14 @@ func (d *Decoder) decodeLobTo(v reflect.Value) error {
 
 	case reflect.Array:
 		if v.Type().Elem().Kind() == reflect.Uint8 {
-			i := reflect.Copy(v, reflect.ValueOf(val))
-			for ; i < v.Len(); i++ {
-				v.Index(i).SetUint(0)
+			// reflect.Copy insists on identical element types and panics for a named byte type,
+			// so copy element by element (truncating or zero-filling to the array length).
+			for i := 0; i < v.Len(); i++ {
+				if i < len(val) {
+					v.Index(i).SetUint(uint64(val[i]))
+				} else {
+					v.Index(i).SetUint(0)
+				}
 			}
 			return nil
 		}
